@@ -32,6 +32,8 @@ import CelloProofs.Lemmas.ExnDomain
 import CelloProofs.Lemmas.ExnRefine
 import CelloProofs.Lemmas.ExnWorld
 import CelloProofs.Lemmas.ExnDepth
+import Cello.ExnSignal
+import CelloProofs.Lemmas.ExnSignal
 
 namespace Cello.Exn
 
@@ -638,5 +640,150 @@ theorem C07_nonconsuming_refuted :
     let bad : Prog := .tryCatch (.tryCatch (.throw 1) [1] (.stmt 7)) [] (.stmt 9)
     (run false 2048 bad 1 St.init).2.1 ≠ (eval bad 1).1 ∧
     (runNow bad 1 St.init).2.1 = (eval bad 1).1 := by decide
+
+/-! ### Extension round: signals as exceptions, the uncaught-exception report, the record's accessors
+    (model: Cello/ExnSignal.lean; lemmas: CelloProofs/Lemmas/ExnSignal.lean; source-derived: `CelloGen.Exn.signalTable`,
+    `signalsRegistered`, `signalHandlerUnblocks`, `errorStmts`, the accessor bodies) -/
+
+/-- **`Exception_Signal` / `exception_signals` as modelled**: the switch of `Exception_Signal` read from src/Exception.c is
+    the table the model's `sigObj` / the harness's oracle were written against (six rows: signal, exception object,
+    message), `exception_signals` registers exactly the signals that have a row, in that order, and nothing in the source
+    re-opens the signal mask when the handler is left by `longjmp` (the switch `unblocks` of `stepS`). A row changed,
+    dropped or pointed at another exception object, or a registration dropped, makes this statement false. -/
+theorem C07_signal_table_current_source :
+    CelloGen.Exn.signalTable = sigTableModelled ∧
+    CelloGen.Exn.signalsRegistered = sigNames ∧
+    CelloGen.Exn.signalTable.map (fun r => r.1) = CelloGen.Exn.signalsRegistered ∧
+    CelloGen.Exn.signalHandlerUnblocks = false := ⟨rfl, rfl, rfl, rfl⟩
+
+/-- **Histories against the reference directly**: any number of constructs in the object domain, each completing,
+    executed one after another from a state with nothing pending: the machine's trace is the concatenation of the
+    REFERENCE traces of the constructs (`C07_sequence_history` + `C07_current_source` per construct). -/
+theorem C07_history_reference_traces (ps : List Prog) (x : Nat) (hx : x ≠ 0) (s : St) (ha : s.active = false)
+    (hall : ∀ p ∈ ps, s.depth + nest p ≤ CelloGen.Exn.maxDepth ∧ inDomain p = true ∧ (eval p x).2 = none) :
+    (runSeq runNow ps x s).2.1 = (ps.map (fun p => (eval p x).1)).flatten ∧ (runSeq runNow ps x s).2.2 = .normal ∧
+      (runSeq runNow ps x s).1.depth = s.depth ∧ (runSeq runNow ps x s).1.active = false := by
+  have h := C07_sequence_history ps x hx s ha hall
+  simp only at h
+  obtain ⟨h1, h2, h3, h4⟩ := h
+  refine ⟨?_, h2, h3, h4⟩
+  rw [h1]
+  congr 1
+  apply List.map_congr_left
+  intro p hp
+  obtain ⟨pn, pd, pe⟩ := hall p hp
+  have e1 := C07_current_source p x s ha pn hx pd
+  rcases hev : eval p x with ⟨tp, rp⟩
+  rw [hev] at pe; simp only at pe; subst pe
+  rw [hev] at e1; simp only [Agrees] at e1
+  exact e1.1
+
+/-- **C07 with signals (each signal once per thread)**: a history of constructs `try { raise(sig); s1 } catch (e in
+    filter) { handler }` in one thread, on the machine of the code as it is now with the thread's signal mask (`runS`,
+    `unblocks` as read from the source), whose signals are pairwise different and not blocked at the start, every
+    construct in the object domain and completing: the trace is the concatenation of the reference traces in which every
+    `raise` IS a `throw` of the exception object `Exception_Signal` names, the history ends normally, depth restored. -/
+theorem C07_signals_delivered_once_each (ops : List SOp) (x : Nat) (hx : x ≠ 0) (s : SigSt) (ha : s.st.active = false)
+    (hnd : (ops.map (fun o => sigIdx o.sig)).Nodup) (hbl : ∀ o ∈ ops, sigIdx o.sig ∉ s.blocked)
+    (hall : ∀ o ∈ ops, s.st.depth + nest o.delivered ≤ CelloGen.Exn.maxDepth ∧ inDomain o.delivered = true ∧
+      (eval o.delivered x).2 = none) :
+    let r := runS CelloGen.Exn.signalHandlerUnblocks runNow ops x s
+    r.2.1 = (ops.map (fun o => (eval o.delivered x).1)).flatten ∧ r.2.2 = .normal ∧
+      r.1.st.depth = s.st.depth ∧ r.1.st.active = false := by
+  have h := runS_eq_runSeq runNow x ops s hnd hbl
+  have hall' : ∀ p ∈ ops.map SOp.delivered, s.st.depth + nest p ≤ CelloGen.Exn.maxDepth ∧ inDomain p = true ∧
+      (eval p x).2 = none := by
+    intro p hp
+    obtain ⟨o, ho, rfl⟩ := List.mem_map.mp hp
+    exact hall o ho
+  have h2 := C07_history_reference_traces (ops.map SOp.delivered) x hx s.st ha hall'
+  rw [← h] at h2
+  simp only [List.map_map] at h2
+  exact h2
+
+/-- the full statement: the same for EVERY history (a signal may occur any number of times) -/
+def C07_signals_every_delivery_statement : Prop :=
+  ∀ (ops : List SOp) (x : Nat), x ≠ 0 →
+    (∀ o ∈ ops, nest o.delivered ≤ CelloGen.Exn.maxDepth ∧ inDomain o.delivered = true ∧ (eval o.delivered x).2 = none) →
+    (runS CelloGen.Exn.signalHandlerUnblocks runNow ops x ⟨St.init, []⟩).2.1 = (evalS ops x).1
+
+/-- **KF-C07-signal-once.** `Exception_Signal` leaves its handler through `longjmp`; the signal, blocked by `signal()` for
+    the duration of the handler, is never unblocked: the second `raise(SIGINT)` of a thread is left pending, `raise`
+    returns and the body goes on — no exception, no handler (witness corpus/kf_c07_signal_once.ops: `S 0 3 3`). -/
+theorem C07_signal_second_delivery_refuted : ¬ C07_signals_every_delivery_statement := by
+  intro h
+  have := h [⟨3, [], .stmt 2⟩, ⟨3, [], .stmt 2⟩] 1 (by decide) (by decide)
+  revert this
+  decide
+
+/-- what the code does with the second occurrence, exactly: the construct runs as the one without the `raise` -/
+theorem C07_blocked_signal_is_skipped (x : Nat) (s : SigSt) (o : SOp) (h : sigIdx o.sig ∈ s.blocked) :
+    ((stepS CelloGen.Exn.signalHandlerUnblocks runNow x s o).1.st, (stepS CelloGen.Exn.signalHandlerUnblocks runNow x s o).2)
+      = runNow o.skipped x s.st :=
+  (stepS_blocked _ runNow x s o h).1
+
+/-- **The repair in the model**: a handler that re-opens the mask before it throws (`unblocks = true`: SA_NODEFER /
+    sigprocmask in `Exception_Signal`) makes the statement hold for every history, repeated signals included. -/
+theorem C07_signal_unblocking_repair (ops : List SOp) (x : Nat) (hx : x ≠ 0)
+    (hall : ∀ o ∈ ops, nest o.delivered ≤ CelloGen.Exn.maxDepth ∧ inDomain o.delivered = true ∧
+      (eval o.delivered x).2 = none) :
+    (runS true runNow ops x ⟨St.init, []⟩).2.1 = (ops.map (fun o => (eval o.delivered x).1)).flatten ∧
+      (runS true runNow ops x ⟨St.init, []⟩).2.2 = .normal := by
+  have h := (runS_unblocking_eq_runSeq runNow x ops ⟨St.init, []⟩ rfl).1
+  have hall' : ∀ p ∈ ops.map SOp.delivered, St.init.depth + nest p ≤ CelloGen.Exn.maxDepth ∧ inDomain p = true ∧
+      (eval p x).2 = none := by
+    intro p hp
+    obtain ⟨o, ho, rfl⟩ := List.mem_map.mp hp
+    have := hall o ho
+    simpa [St.init] using this
+  have h2 := C07_history_reference_traces (ops.map SOp.delivered) x hx St.init rfl hall'
+  rw [← h] at h2
+  simp only [List.map_map] at h2
+  exact ⟨h2.1, h2.2.1⟩
+
+/-- non-vacuity: three different signals, caught by a catch-all, by the signal's own exception object, and by a filter
+    that lists it second — hypotheses met, three handlers run -/
+example :
+    let ops : List SOp := [⟨3, [], .stmt 2⟩, ⟨0, [sigObj 0], .stmt 2⟩, ⟨5, [2, sigObj 5], .seq (.stmt 2) (.stmt 3)⟩]
+    (ops.map (fun o => sigIdx o.sig)).Nodup ∧
+    (∀ o ∈ ops, nest o.delivered ≤ CelloGen.Exn.maxDepth ∧ inDomain o.delivered = true ∧ (eval o.delivered 1).2 = none) ∧
+    (runS false runNow ops 1 ⟨St.init, []⟩).2 =
+      ([.handler 18, .stmt 2, .handler 15, .stmt 2, .handler 20, .stmt 2, .stmt 3], .normal) := by decide
+
+/-- **The uncaught-exception report of the code as it is now** (`Exception_Error`, read from src/Exception.c as a
+    statement list): for every exception object (shown form, C string) and every message, exactly these pieces are
+    written to stderr in this order — an empty line, the `Uncaught <object as show prints it>` line, the message line
+    `!!\t\t <message>` with the message as a C string, each framed by `!!\t` lines —, the process then exits with status
+    1 = EXIT_FAILURE, and the backtrace is printed after the whole report. -/
+theorem C07_uncaught_report_current_source (objShown objStr msg : String) :
+    reportParts objShown objStr msg CelloGen.Exn.errorStmts =
+      ["\n", "!!\t\n", "!!\tUncaught ", objShown, "\n", "!!\t\n", "!!\t\t ", msg, "\n", "!!\t\n"] ∧
+    reportStatus CelloGen.Exn.errorStmts = some 1 ∧
+    reportTraceLast CelloGen.Exn.errorStmts = true := ⟨rfl, rfl, rfl⟩
+
+/-- **The record's accessors as modelled**: `len(current(Exception))` is the record's `depth`, `running(…)` its `active`
+    flag, `current(Exception)` the per-thread record, the jump target of a throw is `buffers[depth-1]` (guarded), the
+    Exception type registers them as its Len / Current / Start / Assign / New instances, and both `exception_throw` and
+    `exception_catch` jump exactly when the depth is ≥ 1 and report through `Exception_Error` otherwise (`throwObj`,
+    `catchPhase`). -/
+theorem C07_record_accessors_as_modelled :
+    CelloGen.Exn.lenBody = CelloGen.Exn.lenBodyModelled ∧
+    CelloGen.Exn.runningBody = CelloGen.Exn.runningBodyModelled ∧
+    CelloGen.Exn.currentBody = CelloGen.Exn.currentBodyModelled ∧
+    CelloGen.Exn.bufferBody = CelloGen.Exn.bufferBodyModelled ∧
+    CelloGen.Exn.recordInstancesAsModelled = true ∧
+    CelloGen.Exn.throwJumpsWhenLenPositive = true ∧
+    CelloGen.Exn.catchJumpsWhenDepthPositive = true := ⟨rfl, rfl, rfl, rfl, rfl, rfl, rfl⟩
+
+/-- **`running(current(Exception))` is never observed true by user code**: at every point where a construct has ended
+    normally — which is where the next user statement runs: after a block, and (by `catchPhase`) at the start of a
+    handler — the `active` flag is clear, whatever the program, its nesting or its objects (from `C07_no_undefined_jump`). -/
+theorem C07_running_false_at_statement_boundaries (maxDepth : Nat) (p : Prog) (x : Nat) (s : St) (ha : s.active = false)
+    (hn : (run true maxDepth p x s).2.2 = .normal) :
+    (run true maxDepth p x s).1.active = false ∧ (run true maxDepth p x s).1.depth = s.depth := by
+  have h := C07_no_undefined_jump maxDepth p x s ha
+  unfold Safe at h
+  rw [hn] at h
+  exact ⟨h.2, h.1⟩
 
 end Cello.Exn
